@@ -8,6 +8,7 @@ in-flight file cut at some byte) and the real function runs on it; (ii) the real
 RLIMIT_FSIZE = k, so the kernel kills it inside the first write that passes k bytes; (iii) the child runs under strace with
 ENOSPC injected into its k-th mkdir/openat/write.  For (ii)/(iii) the tree left behind must be one of the model's crash
 states, and a later real run must restore the factory files and leave everything else as the crash left it."""
+import hashlib
 import os, random, time, glob, fnmatch
 from common import *
 import dev
@@ -266,7 +267,7 @@ def run(prop, tier, seed, verdict):
     tplmap = dict(tpl)
     tpl_lines = ["tpl.reset"] + [("tpl.dir %s" % hx(p)) if c is None else ("tpl.file %s %s" % (hx(p), hx(c))) for p, c in tpl]
 
-    n = 400 if tier == "quick" else 12000
+    n = 400 if tier == "quick" else 6000
     n_irreg = n // 8
     trees = [gen_tree(rng, tpl) + (True,) for _ in range(n)] + [gen_tree(rng, tpl, regular=False) + (False,) for _ in range(n_irreg)]
     # corpus: the complete template tree, the absent root, an empty root
@@ -285,6 +286,7 @@ def run(prop, tier, seed, verdict):
     G, M = dev.parse_outputs(gout), dev.parse_outputs(mout)
     disag, tagcount, nontrivial = 0, {}, set()
     crash_jobs = []          # (tree index, crash state dict with in-flight path)
+    crash_budget = 1500 if tier == "quick" else 40000
     for i, (t, tags, reg) in enumerate(trees):
         for tg in tags:
             tagcount[tg] = tagcount.get(tg, 0) + 1
@@ -305,7 +307,7 @@ def run(prop, tier, seed, verdict):
                 if res2 != "ok" or tr2 != tr1:
                     verdict.violation({"clause": "not-idempotent"}, {"ops": ops, "first": gl[0][:400], "second": gl[1][:400]}, True)
             if tags & {"factory-file-changed", "factory-file-absent", "factory-dir-absent"} and tags & {"user-file-changed", "extra-file"}:
-                nontrivial.add(tr1 + "|" + " ".join(ops))
+                nontrivial.add(hashlib.sha1((tr1 + "|" + " ".join(ops)).encode()).digest())
         if gl != [x for x in ml[:2]]:
             disag += 1
             if not verdict.violations:
@@ -313,12 +315,14 @@ def run(prop, tier, seed, verdict):
                 verdict.violation({"clause": "correspondence"},
                                   {"correspondence": "Hidi.upkeep (lean/Hidi/Upkeep.lean) vs updateHIDIConfiguration", "ops": ops,
                                    "implementation": gl[k][:600], "model": (ml[k] if k < len(ml) else "")[:600], "regular": reg}, False)
-        if reg and len(ml) >= 3 and i % (1 if tier == "thorough" else 6) == 0:
+        if reg and len(ml) >= 3 and i % (1 if tier == "thorough" else 6) == 0 and crash_budget > 0:
+            # crash states are whole trees: keep only as many as will be replayed (memory)
             states = [parse_tree(s) for s in ml[2].split(" || ")] if ml[2].strip() else []
+            crash_budget -= len(states)
             crash_jobs.append((i, states))
     # ---- (i) model crash states materialised, real function on each
     cs_ops_go, cs_ops_mo, cs_meta = [], list(tpl_lines), []
-    limit = 1500 if tier == "quick" else 40000
+    limit = 1500 if tier == "quick" else 40000   # = the initial crash_budget
     for i, states in crash_jobs:
         t = trees[i][0]
         final_target = dict(tplmap) if t is None else None
